@@ -171,6 +171,7 @@ def draw_request(ch, target, tb, h, allow_known=False):
         req = {"key": key, "w": ch.pick([None, 2], "w"), "l": ch.pick([None, 3], "l"), "mult": ch.pick([None, 2], "mult")}
         if ch.chance(1, 8):
             req["bogus"] = True
+            req["bogus_form"] = ch.rint(0, 4, "bogusform")
         return [kind, req, share]
     return [kind, {}, share]
 
@@ -226,7 +227,12 @@ def build_request(h, target, tb, r, nports_of):
     if kind in ("res", "cap", "diode", "bjt"):
         mod = tb[kind][req["key"]]
         nports = len(mod.port_list)
-        model = req["key"] if not req.get("bogus") else "NO_SUCH_MODEL"
+        model = req["key"]
+        if req.get("bogus"):
+            # no such device: an unrelated name, or a truncated / partial spelling of a real one
+            bog = [req["key"][: max(1, len(req["key"]) // 2)], req["key"][:-1], req["key"].split("_")[0], "", "NO_SUCH_MODEL"]
+            bog = [b_ for b_ in bog if b_ not in tb[kind]]
+            model = bog[req.get("bogus_form", 0) % len(bog)]
         expect = {"kind": kind, "table": kind, "model": req["key"], "bogus": bool(req.get("bogus")), "given_wl": {"w": req.get("w"), "l": req.get("l")}}
         kw = {"model": model}
         if kind == "res":
